@@ -388,7 +388,7 @@ Section Ext.
       - rewrite !emit_sff_S. destruct (mem_str section stack); [reflexivity|].
         apply fold_out_ext. intros k ws0 _. rewrite (emit_file_of_ext f base k ws0 IHf).
         step. destruct (reference_partial cfg); [reflexivity|].
-        destruct (lookup k (sections_subgroups seg)) as [others|]; [|reflexivity].
+        destruct (lookup k (subgroups_for seg f)) as [others|]; [|reflexivity].
         assert (Hch : forall ws',
                    fold_out (fun other ws => emit_sff rt1 sty cfg seg sections f n (section :: stack)
                                                       other base ws) others ws' =
@@ -669,7 +669,10 @@ Section SectionOrder.
           step. apply fold_out_Forall2.
           eapply Forall_Forall2; [|exact IHf|exact Hfl]. intros x y Hx Hxy ws1. apply Hx. exact Hxy. }
         rewrite Hfile. step. destruct (reference_partial cfg); [reflexivity|].
-        destruct (lookup k0 (sections_subgroups seg)) as [others|]; [|reflexivity].
+        change (subgroups_for seg (FileInfo p k sf pa s lon so1 fl1 d c kp))
+          with (subgroups_for seg (FileInfo p k sf pa s lon so2 fl2 d c kp)).
+        destruct (lookup k0 (subgroups_for seg (FileInfo p k sf pa s lon so2 fl2 d c kp))) as [others|];
+          [|reflexivity].
         assert (Hch : forall ws',
                    fold_out (fun other ws => emit_sff rt sty cfg seg sections
                                                (FileInfo p k sf pa s lon so1 fl1 d c kp) n
